@@ -24,7 +24,7 @@ FUnspec == [r |-> "unspec"]
 \* -------------------------------------------------------------- coercions
 \* string parameter / receiver: numbers and booleans become the text they
 \* print as, nil the empty string (C16)
-AsStr(v) == IF v.k \in {"nil", "bool", "int", "flt", "str"} THEN ScalarText(v)
+AsStr(v) == IF v.k \in {"nil", "bool", "int", "flt", "str", "big"} THEN ScalarText(v)
             ELSE [ok |-> FALSE, s |-> <<>>]
 
 \* decimal spelling  -?digits(.digits)?  with at most 4 fractional digits
@@ -81,7 +81,7 @@ DocArgs(name) == IF name \in {"upcase", "downcase", "capitalize", "escape_once"}
 KnownFilter(name) == MaxArgs(name) >= 0
 
 \* ------------------------------------------------------------ array part
-AllK(s, ks) == \A i \in 1..Len(s) : s[i].k \in ks
+AllK(s, ks) == \A i \in 1..Len(s) : s[i].k \in ks \/ (s[i].k = "big" /\ "int" \in ks)
 \* a strict total order exists on s and ties are only between identical values
 SortableSeq(s) ==
   /\ (AllK(s, {"int", "flt"}) \/ AllK(s, {"str"}))
@@ -327,7 +327,7 @@ Filter(name, recv, args) ==
   ELSE IF name \in NumericFilters THEN
     (LET x == AsNum(recv, TRUE)
          \* TLC integers are 32-bit: magnitudes beyond 10^6 are outside the modelled arithmetic
-         small(v) == ~IsNum(v) \/ (AbsI(NumN(v)) <= 1000000 /\ NumD(v) <= 10000)
+         small(v) == ~IsNum(v) \/ (~IsBig(v) /\ AbsI(NumN(v)) <= 1000000 /\ NumD(v) <= 10000)
      IN  IF x.r = "num" /\ ~(small(x.v) /\ \A i \in 1..Len(args) : small(args[i])) THEN FUnspec
          ELSE IF x.r = "num" THEN NumericFilter(name, x.v, args)
          ELSE IF x.r = "err" THEN FErr ELSE FUnspec)
